@@ -55,6 +55,17 @@ SEED = {
  "C16c": ("C16", "MemoryFS::read_dir calls self.exists() while holding the read guard (the read lock is taken twice)", "a writer queued between the two acquisitions: both threads, and every later call, hang", "verif-hooks (deterministic demo; the stress demo needs none)"),
  "C17c": ("C17", "OverlayFS::create_dir clears the deletion marker BEFORE creating the directory in the write layer", "two threads create_dir_all on or below a directory that was removed through the overlay: both see the marker, the second remove_file fails FileNotFound", "verif-hooks (deterministic demos; the stress demo needs none)"),
  "C20c": ("C20", "OverlayFS::read_dir merges `if let Ok(entries) = layer_path.read_dir()`: a failing layer listing is skipped", "an I/O failure of a layer's read_dir: partial listings, partial copy_dir, move_dir loses data, remove_dir of a directory non-empty only in the failing layer succeeds", ""),
+ # fourth round (the ten properties not in the third)
+ "C01d": ("C01", "OverlayFS::append_file copies up from the lower layers without consulting the deletion marker (read_path's lower-layer loop factored out and called directly)", "remove_file on a lower-layer file through the overlay, then append_file on it: succeeds and brings the old bytes back", ""),
+ "C02d": ("C02", "MemoryFS WritableFile::flush re-inserts a missing entry: a write handle re-creates a file that was removed while it was open", "create_file or append_file, remove_file (optionally remove_dir of the parent), then flush or drop of the handle", ""),
+ "C04d": ("C04", "MemoryFS reader SeekFrom::End is computed from the remaining bytes (the private len() helper) instead of the length", "seek(End(k)) on a read handle whose position has moved", ""),
+ "C06d": ("C06", "join_internal returns the unchanged input path when nothing is left after an absolute restart", "join(\"/\") on a non-root base returns the base instead of the root", ""),
+ "C07d": ("C07", "AltrootFS::path rejects every path that CONTAINS '..' (substring test instead of a component test)", "names with two consecutive dots inside (a..b, ..x, x..): every call through the altroot fails InvalidPath, exists answers false, read_dir still lists them", ""),
+ "C13d": ("C13", "OverlayFS::read_dir strips the marker suffix from every entry of the marker directory with an unchecked subtraction and str slice", "a removal below a directory whose name is shorter than 3 bytes (or has a multi-byte character at len-3), then read_dir of its parent: panic", ""),
+ "C14d": ("C14", "MemoryFS reader read() recomputes the cursor from the clamped start: a read past the end moves the cursor back to the end", "seek past the end, read (0 bytes), then a relative seek or read", ""),
+ "C15d": ("C15", "async MemoryFS create_file inserts the empty file only when the path is vacant (entry API): a second create_file does not truncate at once", "create_file on an existing file, then observe (metadata, read, append_file) before the new handle is closed", "async-vfs"),
+ "C18d": ("C18", "EmbeddedFS rsplit_once_cow: the Borrowed arm uses split_once instead of rsplit_once", "RELEASE builds only (rust-embed yields borrowed names): a file three or more levels deep is registered under the wrong directory", "embedded-fs"),
+ "C19d": ("C19", "OverlayFS time setters copy the entry up first (copy_file carries bytes only)", "set_*_time through the overlay on a file that exists only in a lower layer: Ok, but the other two timestamps are re-stamped", ""),
 }
 matrix = {}
 mp = os.path.join(ROOT, "seeded", "matrix.txt")
